@@ -32,6 +32,27 @@ def parseRows (s : String) (width : Nat) : Option (List (Int × Int × Nat)) :=
     | some [a, b, t] => if width == 3 && t ≥ 0 then some (a, b, t.toNat) else none
     | _ => none
 
+def parseRowsI (s : String) (width : Nat) : Option (List (Int × Int × Int)) :=
+  if s == "_" then some [] else
+  (s.splitOn ";").mapM fun r =>
+    match (r.splitOn ",").mapM String.toInt? with
+    | some [a, b] => if width == 2 then some (a, b, 0) else none
+    | some [a, b, t] => if width == 3 then some (a, b, t) else none
+    | _ => none
+
+/-- constructor ops with signed bond types: (toAux, n, typed, rows) -/
+def ctorOp : List String → Option (Bool × Nat × Bool × List (Int × Int × Int))
+  | ["new", n, rows] => do let n ← n.toNat?; let r ← parseRowsI rows 3; pure (false, n, true, r)
+  | ["aux", n, rows] => do let n ← n.toNat?; let r ← parseRowsI rows 3; pure (true, n, true, r)
+  | ["new2", n, rows] => do let n ← n.toNat?; let r ← parseRowsI rows 2; pure (false, n, false, r)
+  | _ => none
+
+/-- maximum of the narrow integer dtype named by an `@` token (`none`: 64-bit, cannot refuse an atom count) -/
+def dtypeMax (ws : List String) : Option Nat :=
+  if ws.contains "@i8" then some 127 else if ws.contains "@i16" then some 32767
+  else if ws.contains "@i32" then some 2147483647 else if ws.contains "@u8" then some 255
+  else if ws.contains "@u16" then some 65535 else if ws.contains "@u32" then some 4294967295 else none
+
 def parseBits (s : String) : Option (List Bool) :=
   if s == "_" then some [] else
   s.toList.mapM fun c => if c == '1' then some true else if c == '0' then some false else none
@@ -103,13 +124,24 @@ def step (st : State) (line : String) : State × String :=
   match view st w with
   | some out => (st, out)
   | none =>
+    match ctorOp w with
+    | some (toAux, n, typed, rows) =>
+      match newBLFull n typed rows (dtypeMax ws) with
+      | .ok b => ((if toAux then { st with aux := b } else { st with cur := b }), showBL b)
+      | .err e => (st, "ERR:" ++ e.toString)
+      | .crash => (st, "CRASH")
+      | .ub => (st, "ub")
+    | none =>
     match parseOp w with
     | none => (st, "unmodelled")
     | some op =>
-      let r : Res State := match op, layout with
-        | .getitem ix, .byteSwapped => (getitemL st.cur ix .byteSwapped).toState st
-        | .getitem ix, .readOnly => (getitemL st.cur ix .readOnly).toState st
-        | op, _ => apply st op
+      -- the functions with C widths / dtypes / layouts; they coincide with `apply` inside the size bounds
+      let r : Res State := match op with
+        | .getitem ix => (getitemFull st.cur ix layout (dtypeMax ws)).toState st
+        | .concat => (concatenateFull [st.cur, st.aux]).toState st
+        | .concat3 => (concatenateFull [st.cur, st.aux, st.cur]).toState st
+        | .offset k => (offsetFull st.cur k).toState st
+        | op => apply st op
       match r with
       | .ok st' =>
         let shown := match op with
